@@ -71,7 +71,15 @@ def judge_results(case, obs, drv, allow_comm_error, out):
                     _LAST["answer_lost_after_cancel"] = _LAST.get("answer_lost_after_cancel", 0) + 1
                     continue
                 if got["type"] is None or got["raw"][:len(exp)] != exp:
-                    out.append(("C17:%s:wrong-data-after-fault" % drv, "%s: command %s returned %r, expected raw %r" % (where, c, got, exp)))
+                    sig = "C17:%s:wrong-data-after-fault" % drv
+                    if case["family"] == "cancel" and got["type"] is not None and got["raw"][0] == "value":
+                        # whose data is it?  the scripted answer of a command of the cancelled caller -> the known
+                        # "abandoned send" desynchronisation of the serial drivers (own signature)
+                        theirs = [x["oc"][1] for cl in case["callers"] if cl.get("cancel") is not None
+                                  for x in cl["cmds"] if x.get("oc", [""])[0] == "value"]
+                        if got["raw"][1] in theirs and drv in ("luba", "sci"):
+                            sig = "C17:%s:answer-of-abandoned-send-taken-by-next-command" % drv
+                    out.append((sig, "%s: command %s returned %r, expected raw %r" % (where, c, got, exp)))
         elif rec["status"] == "raised":
             name = rec["exception"]
             e = rec.get("_exc")
